@@ -360,8 +360,10 @@ def dependency : String → Option String
 def selectedKey (candidate : String) (enabled : List String) (k : String) : Bool :=
   k == candidate || dependency candidate == some k || enabled.contains k
 
-/-- the `for key, value in copied.items()` loop, building the `not` dict; `none` = KeyError -/
-def negLoop (ctx : Ctx) (copied : Dict) (candidate : String) (enabled : List String) :
+/-- the `for key, value in copied.items()` loop, building the `not` dict; `none` = KeyError.
+    asFound: `negated[dependency] = copied[dependency]` unconditionally (KeyError when the dependency keyword is
+    missing); repaired: only `if dependency in copied`. -/
+def negLoop (var : Variant) (ctx : Ctx) (copied : Dict) (candidate : String) (enabled : List String) :
     Dict → Dict → Option Dict
   | [], neg => some neg
   | (k, v) :: rest, neg =>
@@ -369,23 +371,26 @@ def negLoop (ctx : Ctx) (copied : Dict) (candidate : String) (enabled : List Str
       let neg1 := dset k v neg
       match dependency k with
       | some dep =>
-        if dhas dep neg1 then negLoop ctx copied candidate enabled rest neg1
+        if dhas dep neg1 then negLoop var ctx copied candidate enabled rest neg1
         else match Json.lookup dep copied with
-          | some dv => negLoop ctx copied candidate enabled rest (dset dep dv neg1)
-          | none => none
-      | none => negLoop ctx copied candidate enabled rest neg1
-    else negLoop ctx copied candidate enabled rest neg
+          | some dv => negLoop var ctx copied candidate enabled rest (dset dep dv neg1)
+          | none =>
+            match var with
+            | .asFound => none
+            | .repaired => negLoop var ctx copied candidate enabled rest neg1
+      | none => negLoop var ctx copied candidate enabled rest neg1
+    else negLoop var ctx copied candidate enabled rest neg
 
 /-- `negate_constraints`. `canNeg` = `can_negate(schema)`; `candidate` = the drawn keyword (must be a mutation
     candidate when there is one), `enabled` = the keywords switched on by the shared feature flags. -/
-def negateConstraints (ctx : Ctx) (canNeg : Bool) (d : Dict) (candidate : String) (enabled : List String) :
-    MResult × Dict :=
+def negateConstraints (var : Variant) (ctx : Ctx) (canNeg : Bool) (d : Dict) (candidate : String)
+    (enabled : List String) : MResult × Dict :=
   if !canNeg then (.failure, d) else
   let kept := d.filter fun p => !(isMutationCandidate ctx p.1 p.2)
   let cands := d.filter fun p => isMutationCandidate ctx p.1 p.2
   if cands.isEmpty then (.failure, kept) else
   if !(cands.any fun p => p.1 == candidate) then (.failure, d) else      -- not a possible draw
-  match negLoop ctx d candidate enabled d [] with
+  match negLoop var ctx d candidate enabled d [] with
   | none => (.keyError, d)
   | some neg => if neg.isEmpty then (.failure, kept) else (.success, kept ++ [("not", .obj neg)])
 
